@@ -392,6 +392,12 @@ def _bounds():
 
 @st.composite
 def _var_list(draw, min_size=1, max_size=7, tuples=True, zero=True):
+    if max_size >= 7 and draw(st.integers(0, 19)) == 0:
+        # MANY variables (a configurator's full item list): generated ids of two kinds, bounds from a short cycle
+        n = draw(st.sampled_from([64, 65, 128, 129, 256, 257, 258, 300, 1000]))
+        cyc = [(0, 1), (0, 1), (-5, 5), (3, 9), (0, 1), (1, 1), (-32768, 32767), (0, 1), (-2, -1)]
+        off = draw(st.integers(0, len(cyc) - 1))
+        return [[("v%04d" % j) if j % 3 else 10 + j, cyc[(j + off) % len(cyc)][0], cyc[(j + off) % len(cyc)][1]] for j in range(n)]
     ids = draw(st.lists(_id_strategy(tuples, zero), min_size=min_size, max_size=max_size, unique_by=_key))
     out = []
     for i in ids:
